@@ -686,10 +686,68 @@ def ambient(run, verde, index):
     run.notes.append("ambient %s: %s" % (AMBIENT_FILES[index], tail[0] if tail else ""))
 
 
+# sizes above the thresholds at which chunked / blocked code paths could start (50 000, 100 000, 131 072); never a multiple of 50 000
+LARGE_FIXED = [("scattered", 60000), ("grid", (300, 401)), ("scattered", 140003)]
+
+
+def large_problem(rng, gen, index):
+    """More than 50 000 points (scattered cloud or 2-D grid), every component with its own field, noise and weights."""
+    if index < len(LARGE_FIXED):
+        kind, size = LARGE_FIXED[index]
+    elif rng.random() < 0.5:
+        kind, size = "scattered", int(rng.choice([50001, 60000, 77777, 100001, 120300, 131073, 140003, 163841]))
+    else:
+        kind, size = "grid", (int(rng.integers(230, 420)), int(rng.integers(230, 420)))
+    scale = _log_uniform(rng, 1.0, 1e4)
+    if kind == "scattered":
+        east, north = rng.uniform(0, scale, size), rng.uniform(0, 0.7 * scale, size)
+    else:
+        if size[0] * size[1] % 50000 == 0:
+            size = (size[0], size[1] + 1)
+        east, north = np.meshgrid(np.linspace(0, scale, size[1]), np.linspace(-0.3 * scale, 0.4 * scale, size[0]))
+    ncomp = 2
+    amplitude = _log_uniform(rng, 1e-1, 1e3)
+    flat = (east.ravel(), north.ravel())
+    data = tuple(make_field(rng, gen, flat[0], flat[1], amplitude * _log_uniform(rng, 0.3, 3.0)).reshape(east.shape) for _ in range(ncomp))
+    weights = tuple(make_weights(rng, east.size).reshape(east.shape) for _ in range(ncomp))
+    return kind, (east, north), data, weights
+
+
+def large(run, verde, gen, rng, tier, index):
+    """
+    Large counts through filter / Chain.fit / Chain.filter / Vector.filter with cheap steps (no dense spline at this size): the
+    residual must be data - prediction at EVERY point, the trailing ones included; the monitors decide, this only drives.
+    """
+    kind, coords, data, weights = large_problem(rng, gen, index)
+    n = coords[0].size
+    weighted = bool(rng.random() < 0.5)
+    w0 = weights[0] if weighted else None
+    k = int(rng.integers(2, 5))
+    # direct BaseGridder.filter
+    verde.Trend(int(rng.integers(1, 4))).filter(coords, data[0], w0)
+    verde.KNeighbors(k=k).filter(coords, data[1])
+    # Chain.fit: a later step fitted on the large residual of an earlier one; then the chain used as a filter
+    chain = verde.Chain([("trend", verde.Trend(int(rng.integers(0, 3)))), ("level", LevelStep()), ("neighbours", verde.KNeighbors(k=k))])
+    chain.fit(coords, data[0], w0)
+    chain.predict(coords)
+    # a reduction first (large input, small output), then cheap steps; Chain.filter evaluates the fitted chain at every input point
+    shape = (int(rng.integers(6, 13)), int(rng.integers(6, 13)))
+    reducer = verde.BlockMean(shape=shape) if rng.random() < 0.5 else verde.BlockReduce(np.median if not weighted else np.average, shape=shape)
+    reduced = verde.Chain([("reduce", reducer), ("trend", verde.Trend(int(rng.integers(1, 3)))), ("neighbours", verde.KNeighbors(k=2))])
+    reduced.filter(coords, data[1], weights[1] if weighted else None)
+    # Vector.filter: two components, distinct data and weights
+    vec = verde.Vector([verde.Trend(int(rng.integers(1, 3))), verde.Chain([("trend", verde.Trend(1)), ("neighbours", verde.KNeighbors(k=k))])])
+    vec.filter(coords, data, weights if weighted else None)
+    run.count("workload:large:%s" % kind)
+    run.count("workload:large:points>%d" % (131072 if n > 131072 else 100000 if n > 100000 else 50000))
+
+
 def drive(run, verde, gen, stream, index, rng):
     tier = run.tier
     if stream == "ambient":
         return ambient(run, verde, index)
+    if stream == "large":
+        return large(run, verde, gen, rng, tier, index)
     if stream == "scalar_chain":
         scalar_chain(run, verde, gen, rng, tier, batch=10)
     elif stream == "vector":
